@@ -31,6 +31,11 @@ DEFS = {
    "DESIGN.md 4.1",
    "Violations come only from real interpreters. Simulated addresses are assumed to be legal memory layouts. The instrumented loader rewrites set constructors only (fidelity is cross-checked against stable real outputs on every run).",
    "deterministic simulation: seeded set-iteration-order scheduler (AST seam) + PYTHONHASHSEED / simulated-address sweep over real interpreters, byte-equality oracle, ddmin attribution to iteration sites"),
+ "C07": ("exploration",
+   "Reorder / duplicate fault model on sample deliveries: for seeded base sample lists, seeded permutations and repetitions of already present samples are inferred in pristine processes and the canonical model graph (colour refinement; field order, union member order, numeric name suffixes abstracted) must equal that of the base list. Sampling of permutations/duplications, not enumeration; base lists are generated workload.",
+   "DESIGN.md 4.2",
+   "Colour refinement is isomorphism-invariant (no false alarms on allowed differences) but could equate two non-isomorphic graphs (detection loss only). Pairs where either side raises are skipped.",
+   "deterministic simulation: seeded reordering/duplication of sample deliveries vs reference run, canonical-graph equality oracle, structural shrinking"),
  "C15": ("exploration",
    "Seeded search over thread interleavings: 1-8 independent pipelines on real threads under a baton scheduler that pre-empts at line (and, in the thread-local context code, opcode) events inside repository frames; every thread's outcome must equal the outcome of the same pipeline alone in a pristine process. A clean batch is evidence over the sampled interleavings, not proof.",
    "DESIGN.md 4.4",
